@@ -40,9 +40,9 @@ func (HostileEngine) Decode(raw json.RawMessage) (any, error) {
 }
 
 func (HostileEngine) Gen(prop, tier string, seed uint64, yield func(c any) bool) {
-	n := 900
+	n := 2600
 	if tier == "thorough" {
-		n = 40000
+		n = 60000
 	}
 	rng := core.NewRng(core.SubSeed(seed, "hostile", tier))
 	for i := 0; i < n; i++ {
@@ -96,6 +96,16 @@ func (HostileEngine) Gen(prop, tier string, seed uint64, yield func(c any) bool)
 			if s.Password == "dg1" {
 				s.Password = "mrz"
 			}
+		}
+		if kind == "stripped-dg14" || kind == "stripped-dg15" {
+			// both files referenced by the security object in most runs, in every order of the hash list
+			if s.AA == nil && rng.Chance(2, 3) {
+				s.AA = &world.AASpec{Kind: "ec", CurveID: core.Pick(rng, chip.AllParamIDs)}
+			}
+			if s.CA == nil && rng.Chance(2, 3) {
+				s.CA = &world.CASpec{CurveID: core.Pick(rng, chip.AllParamIDs), Suites: []string{core.Pick(rng, allSuites)}}
+			}
+			s.HashOrder = core.Pick(rng, []int{0, 1, 2, 3, 3, 4, 4})
 		}
 		if len(s.PACE) == 0 && !s.BAC {
 			s.BAC = true
